@@ -973,8 +973,20 @@ func (c *Ctx) ruleCallRatchet(rule string, pkgs []string, fileFilter func(file s
 		}
 		nowCounts := map[string]int{}
 		directCalleeCounts(c, fn, nil, nowCounts, nil)
+		// a method's key carries "@field" when its receiver is loaded straight from a struct field; whether it is
+		// depends on how the receiver is held (a local captured by a literal is not), so the suffix only tells sites
+		// apart where both sides have one
+		plainNow := map[string]bool{}
+		for k := range reach {
+			if i := strings.Index(k, "@"); i > 0 {
+				plainNow[k[:i]] = true
+			}
+		}
 		var missing []string
 		for _, k := range bs.Callees {
+			if !reach[k] && !strings.Contains(k, "@") && plainNow[k] {
+				continue
+			}
 			if reach[k] {
 				n0 := bs.Counts[k]
 				if n0 == 0 {
@@ -988,6 +1000,11 @@ func (c *Ctx) ruleCallRatchet(rule string, pkgs []string, fileFilter func(file s
 			kk := k
 			if i := strings.Index(kk, "@"); i > 0 {
 				kk = kk[:i]
+				// recorded as a method called on a field (X@f); the same method is still called, now on a receiver
+				// that is not a direct field load (the field was read into a local first): the same step
+				if reach[kk] {
+					continue
+				}
 			}
 			if !strings.HasPrefix(k, "invoke ") && (strings.Contains(k, "pkg/") || strings.HasPrefix(k, "api.") || strings.HasPrefix(k, "(*api.")) && !exists[kk] {
 				continue // the callee itself was removed or renamed: not decided
